@@ -49,7 +49,13 @@ static int op_sm9_encrypt(uint8_t *o, size_t *l) { return sm9_encrypt(&E9M, "ali
 static int op_sm9_kem(uint8_t *o, size_t *l) { SM9_Z256_POINT C; uint8_t k[32]; int r = sm9_kem_encrypt(&E9M, "alice", 5, 32, k, &C); if (r == 1) { sm9_z256_point_to_uncompressed_octets(&C, o); *l = 65; } return r; }
 static int op_sm9_exch1a(uint8_t *o, size_t *l) { SM9_Z256_POINT RA; sm9_z256_t rA; int r = sm9_exch_step_1A(&E9M, "bob", 3, &RA, rA); if (r == 1) { sm9_z256_point_to_uncompressed_octets(&RA, o); *l = 65; } return r; }
 static int op_sm9_exch1b(uint8_t *o, size_t *l) { SM9_Z256_POINT RA, RB; sm9_z256_t rA; uint8_t sk[16]; venv_stream sv = *venv_cur(); venv_reset(777); if (sm9_exch_step_1A(&E9M, "bob", 3, &RA, rA) != 1) return -9; *venv_cur() = sv; int r = sm9_exch_step_1B(&E9M, "alice", 5, "bob", 3, &E9KB, &RA, &RB, sk, 16); if (r == 1) { sm9_z256_point_to_uncompressed_octets(&RB, o); *l = 65; } return r; }
-static const struct { const char *name; op_f f; int sm9; } OPS[] = { { "sm2_key_generate", op_keygen }, { "sm2_sign", op_sign }, { "sm2_do_sign", op_do_sign }, { "sm2_sign_fixlen", op_sign_fixlen }, { "sm2_sign_init+finish", op_sign_ctx }, { "sm2_encrypt", op_encrypt }, { "sm2_encrypt_fixlen", op_encrypt_fixlen }, { "sm2_encrypt_init+finish", op_encrypt_ctx },
+static int op_sm9_p8_sm(uint8_t *o, size_t *l) { uint8_t *p = o; *l = 0; return sm9_sign_master_key_info_encrypt_to_der(&S9M, "pw", &p, l); }
+static int op_sm9_p8_sk(uint8_t *o, size_t *l) { uint8_t *p = o; *l = 0; return sm9_sign_key_info_encrypt_to_der(&S9K, "pw", &p, l); }
+static int op_sm9_p8_em(uint8_t *o, size_t *l) { uint8_t *p = o; *l = 0; return sm9_enc_master_key_info_encrypt_to_der(&E9M, "pw", &p, l); }
+static int op_sm9_p8_ek(uint8_t *o, size_t *l) { uint8_t *p = o; *l = 0; return sm9_enc_key_info_encrypt_to_der(&E9K, "pw", &p, l); }
+static int op_sm9_p8_pem(uint8_t *o, size_t *l) { char *t = NULL; size_t tl = 0; FILE *f = open_memstream(&t, &tl); int r = sm9_sign_key_info_encrypt_to_pem(&S9K, "pw", f); fclose(f); if (tl > 4000) tl = 4000; memcpy(o, t, tl); *l = tl; free(t); return r; }
+static int op_sm2_p8_pem(uint8_t *o, size_t *l) { char *t = NULL; size_t tl = 0; FILE *f = open_memstream(&t, &tl); int r = sm2_private_key_info_encrypt_to_pem(&CK[0], "pw", f); fclose(f); if (tl > 4000) tl = 4000; memcpy(o, t, tl); *l = tl; free(t); return r; }
+static const struct { const char *name; op_f f; int sm9; } OPS[] = { { "sm9_sign_master_key_info_encrypt", op_sm9_p8_sm, 1 }, { "sm9_sign_key_info_encrypt", op_sm9_p8_sk, 1 }, { "sm9_enc_master_key_info_encrypt", op_sm9_p8_em, 1 }, { "sm9_enc_key_info_encrypt", op_sm9_p8_ek, 1 }, { "sm9_sign_key_info_encrypt_to_pem", op_sm9_p8_pem, 1 }, { "sm2_private_key_info_encrypt_to_pem", op_sm2_p8_pem }, { "sm2_key_generate", op_keygen }, { "sm2_sign", op_sign }, { "sm2_do_sign", op_do_sign }, { "sm2_sign_fixlen", op_sign_fixlen }, { "sm2_sign_init+finish", op_sign_ctx }, { "sm2_encrypt", op_encrypt }, { "sm2_encrypt_fixlen", op_encrypt_fixlen }, { "sm2_encrypt_init+finish", op_encrypt_ctx },
 	{ "pkcs8_encrypt", op_p8 }, { "x509_cert_sign", op_cert }, { "x509_req_sign", op_req }, { "x509_crl_sign", op_crl }, { "cms_sign", op_cms_sign }, { "cms_envelop", op_cms_envelop }, { "tls_cbc_encrypt", op_cbc_iv },
 	{ "sm9_sign_master_key_generate", op_sm9_msk, 1 }, { "sm9_enc_master_key_generate", op_sm9_emsk, 1 }, { "sm9_sign", op_sm9_sign, 1 }, { "sm9_encrypt", op_sm9_encrypt, 1 }, { "sm9_kem_encrypt", op_sm9_kem, 1 }, { "sm9_exch_step_1A", op_sm9_exch1a, 1 }, { "sm9_exch_step_1B", op_sm9_exch1b, 1 } };
 #define NOPS (sizeof OPS / sizeof OPS[0])
